@@ -31,6 +31,10 @@
 
 
 
+#include <xalanc/XPath/MutableNodeRefList.hpp>
+
+
+
 #include "ElemVariable.hpp"
 #include "StylesheetExecutionContext.hpp"
 
@@ -413,7 +417,22 @@ VariablesStack::findXObject(
                 const PushAndPopContextMarker   theContextMarkerPushPop(executionContext);
 #endif
 
-                theNewValue = var->getValue(executionContext, doc);
+                {
+                    // A top-level variable is evaluated with the root node
+                    // as the current node, and as the only member of the
+                    // current node list, whenever it's evaluated.
+                    MutableNodeRefList  theRootList(executionContext.getMemoryManager());
+
+                    theRootList.addNode(doc);
+
+                    theRootList.setDocumentOrder();
+
+                    const XPathExecutionContext::ContextNodeListPushAndPop  theContextNodeListPushAndPop(
+                                executionContext,
+                                theRootList);
+
+                    theNewValue = var->getValue(executionContext, doc);
+                }
                 assert(theNewValue.null() == false);
 
 #if !defined(XALAN_RECURSIVE_STYLESHEET_EXECUTION)
